@@ -1083,6 +1083,13 @@ func (e *sched) execFrom(fr *sFrame, states []*sState, b, pred, stop *ssa.BasicB
 					return nil
 				}
 			default:
+				if e.proto != nil {
+					var more []*sState
+					for _, st := range states {
+						more = append(more, e.proto.split(e, st, in)...)
+					}
+					states = append(states, more...)
+				}
 				// states run in lockstep: the same instruction allocates the same object identity in each of them
 				base, maxID := e.nextID, e.nextID
 				for _, st := range states {
